@@ -277,9 +277,25 @@ fn valid_packet_inner(ver: Ver, ch: &mut Choices, i: u32) -> Pkt {
         }
         1 => {
             let mut c = rc::Connect::new(ver, "client", 30);
-            if ch.chance(1, 2) {
-                c.username = Some("user".into());
-                c.password = Some(vec![1, 2, 3]);
+            // user name and password: both, neither, user name only; password only is legal in MQTT 5 (in
+            // MQTT 3.1.1 it is not, and is produced as a mutation: whatever a decoder accepts must be stable)
+            match ch.choose(4) {
+                0 => {
+                    c.username = Some("user".into());
+                    c.password = Some(vec![1, 2, 3]);
+                }
+                1 => c.username = Some("user".into()),
+                2 if ver == Ver::V5 => c.password = Some(vec![9; 5]),
+                _ => {}
+            }
+            // a Will (QoS, retain, payload; MQTT 5: will properties)
+            if ch.chance(1, 3) {
+                let mut props = Vec::new();
+                if ver == Ver::V5 && ch.chance(1, 2) {
+                    props.push((24, PropVal::U32(5)));
+                    props.push((1, PropVal::Byte(1)));
+                }
+                c.will = Some(rc::Will { qos: ch.choose(3) as u8, retain: ch.chance(1, 2), props, topic: "will/t".into(), payload: vec![7; *ch.pick(&[0usize, 3, 200])] });
             }
             if ver == Ver::V5 && ch.chance(1, 2) {
                 c.props.push((33, PropVal::U16(10)));
@@ -305,8 +321,38 @@ fn mutate(ver: Ver, ch: &mut Choices, frame: &mut Vec<u8>, pkt: &Pkt) -> String 
     let hdr = rc::fixed_header(frame).ok().flatten();
     let (first, rem, hl) = hdr.unwrap_or((frame[0], 0, 2.min(frame.len())));
     // (MQTT 5 packets that carry once-only properties get a property mutation more often than the uniform draw)
-    let m = if v5 && matches!(pkt, Pkt::Subscribe(_) | Pkt::Connect(_) | Pkt::ConnAck(_) | Pkt::Publish(_)) && ch.chance(1, 6) { 8 } else { ch.choose(13) };
+    let m = if v5 && matches!(pkt, Pkt::Subscribe(_) | Pkt::Connect(_) | Pkt::ConnAck(_) | Pkt::Publish(_)) && ch.chance(1, 6) {
+        8
+    } else if matches!(pkt, Pkt::Connect(_)) && ch.chance(1, 5) {
+        13
+    } else {
+        ch.choose(13)
+    };
     match m {
+        13 => {
+            // CONNECT flag combinations a well-behaved encoder does not produce: a password without a user
+            // name, a Will QoS / Will retain without a Will
+            let Pkt::Connect(c) = pkt else { return "none".into() };
+            let mut c = c.clone();
+            match ch.choose(2) {
+                0 => {
+                    c.username = None;
+                    c.password = Some(vec![5; 1 + ch.choose(6) as usize]);
+                    *frame = rc::encode(ver, &Pkt::Connect(c));
+                    "CONNECT with a password and no user name".into()
+                }
+                _ => {
+                    c.will = None;
+                    *frame = rc::encode(ver, &Pkt::Connect(c));
+                    // flags byte: fixed header, protocol name (2 + n), level
+                    let off = hl + 2 + 4 + 1;
+                    if frame.len() > off {
+                        frame[off] |= *ch.pick(&[0x08u8, 0x10, 0x20]);
+                    }
+                    "CONNECT with Will QoS / retain flags and no Will".into()
+                }
+            }
+        }
         12 => {
             // the body cut after k bytes with a Remaining Length that says exactly k: a frame that is
             // consistent on the outside and too short on the inside, at every possible length
